@@ -20,7 +20,7 @@ pub fn run(rep: &Report) {
     rep.assume("histories are sampled; the crash model is the one of C01");
     let (n, crash_every) = match rep.tier {
         Tier::Quick => (4_000u64, 250u64),
-        Tier::Thorough => (150_000u64, 150u64),
+        Tier::Thorough => (60_000u64, 100u64),
     };
     run_cases(
         rep,
